@@ -227,3 +227,18 @@ Lemma gen_noalias_branches_ok :
   forallb (fun b => let '(f, op, called, guard) := b in (op =? called) && guard) gen_noalias_branches = true /\
   60 <= length gen_noalias_branches.
 Proof. split; [reflexivity | unfold gen_noalias_branches; simpl; lia]. Qed.
+
+(** * right-hand sides that are evaluated first (trans(), %, inverse ...: requires_evaluation_v): every one of the 65
+    overloads of the assignment operators of the view classes selected for them - as translated - evaluates its own
+    argument into a temporary and forwards the temporary to THE SAME operator; and each of the five operators has
+    the same number of such overloads (no view class lacks one) *)
+Lemma gen_evalrhs_forwards_ok :
+  forallb (fun b => let '(f, op, called) := b in (op =? called)) gen_evalrhs_forwards = true /\
+  60 <= length gen_evalrhs_forwards /\
+  forall o, In o [0; 1; 2; 3; 4] ->
+    5 * length (filter (fun b => let '(f, op, called) := b in op =? o) gen_evalrhs_forwards) = length gen_evalrhs_forwards.
+Proof.
+  split; [reflexivity | split; [unfold gen_evalrhs_forwards; simpl; lia |]].
+  intros o Ho. simpl in Ho.
+  destruct Ho as [<- | [<- | [<- | [<- | [<- | []]]]]]; reflexivity.
+Qed.
